@@ -29,6 +29,22 @@ NORMAL: EventPriority = EventPriority(1)
 """Default priority used by events."""
 
 
+def _copy_failure(failure: BaseException) -> BaseException:
+    """An exclusive copy of the exception of a failed event (same type and
+    arguments, fresh traceback) for one process or for step() to raise."""
+    cls = type(failure)
+    try:
+        exc = cls(*failure.args)
+    except Exception:
+        # a class whose constructor has a signature of its own cannot be
+        # rebuilt from its args: copy the instance instead
+        exc = cls.__new__(cls)
+        exc.args = failure.args
+        exc.__dict__.update(failure.__dict__)
+    exc.__cause__ = failure
+    return exc
+
+
 class Event:
     """An event that may happen at some point in time.
 
@@ -335,8 +351,7 @@ class Process(Event):
                     # Create an exclusive copy of the exception for this
                     # process to prevent traceback modifications by other
                     # processes.
-                    exc = type(event._value)(*event._value.args)
-                    exc.__cause__ = event._value
+                    exc = _copy_failure(event._value)
                     event = self._generator.throw(exc)
             except StopIteration as e:
                 # Process has terminated.
